@@ -1,5 +1,10 @@
 import C2paModel.Lemmas.C20Loop
 import C2paModel.Lemmas.C20Store
+import C2paModel.Lemmas.C20Filter
+import C2paModel.Lemmas.C20Reach
+import C2paModel.Lemmas.C20Still
+import C2paModel.Lemmas.C20Bridge
+import C2paModel.Gen.C20Labels
 import C2paModel.Props.C04
 /-
 C20 — property theorems. The statement (properties.jsonl):
@@ -10,8 +15,17 @@ C20 — property theorems. The statement (properties.jsonl):
   removing an assertion without a matching redaction entry is never reported Valid.
 
 All theorems quantify over every claim / store / redaction list / log prefix of the model
-(`Model/C20.lean`); "never reported Valid" is closed with the C04 model of
-`ValidationResults::add_status` / `validation_state` through `report`.
+(`Model/C20.lean`); "never reported Valid" is closed with the model of
+`ValidationResults::from_store` (`fromStoreFilter` with the real `keep`, `Lemmas/C20Filter.lean`)
+followed by the C04 model of `add_status` / `validation_state` (`reportS`): for **every** URL
+decoration of the log (`Decorates`) and **every** content of the ingredient assertions (`recs`).
+
+The clause "never Valid" was false of the code before `fixes/C20-from-store-active-claim-status-filter.patch`:
+`from_store` dropped a status whose URL names another manifest when an equal status was listed in
+any ingredient assertion, also for statuses of the active claim's own validation (a disallowed
+redaction is logged with the URI of the redacted ingredient assertion). `prefix_filter_bypass`
+below is that counter-example on the model of the old predicate; the harness replays it on the
+implementation (kinds `crafted_actions_prerec`, `crafted_hash_prerec`, `crafted_hash_stripped_prerec`).
 -/
 namespace C2pa.C20
 open C2pa.C34
@@ -28,7 +42,7 @@ theorem verifyClaim_spec (c : Claim) (reds : List Str) (map : List Claim) (ing :
       (((assertionLoop c keys ing refs c.store).2 ≠ [] ∧ o.err = true ∧
           ∃ tail, o.log = headEvents c ing ++ (assertionLoop c keys ing refs c.store).1 ++ tail) ∨
        ((assertionLoop c keys ing refs c.store).2 = [] ∧ o.err = false ∧
-          ∃ av, actionsEvents c map ing (actionAssertions c) = some av ∧
+          ∃ av, actionsFor c map ing = some av ∧
             o.log = headEvents c ing ++ (assertionLoop c keys ing refs c.store).1 ++ av)) := by
   unfold verifyClaim at h
   cases hk : parseRedactions reds with
@@ -47,7 +61,7 @@ theorem verifyClaim_spec (c : Claim) (reds : List Str) (map : List Claim) (ing :
         | nil =>
           right
           simp only [List.isEmpty_nil, Bool.not_true, Bool.false_eq_true, if_false] at h
-          cases ha : actionsEvents c map ing (actionAssertions c) with
+          cases ha : actionsFor c map ing with
           | none => simp [ha] at h
           | some av =>
             simp only [ha, Option.bind_some, Option.pure_def, Option.some.injEq] at h
@@ -141,28 +155,38 @@ the reported validation state (C04) is `Invalid`, whatever else is logged before
 theorem disallowed_redaction_invalid (c : Claim) (reds : List Str) (map : List Claim) (ing : Bool)
     (o : Out) (h : verifyClaim c reds map ing = some o)
     (rs : List Str) (r : Str) (hrs : c.redactions = some rs) (hr : r ∈ rs) (hd : Disallowed c r)
-    (pre post : List Ev) (keep : Ev → Bool) (uriOf : Ev → List Char) (r0 : C04.Results)
-    (hkeep : ∀ e ∈ o.log, e.isFailure = true →
-      (e.code = cSelfRedacted ∨ e.code = cActionRedacted ∨ e.code = cHashRedacted) → keep e = true) :
-    C04.state (report keep uriOf r0 (pre ++ o.log ++ post)) = .invalid := by
-  obtain ⟨e, he, hf, _, hc⟩ := disallowed_redaction_flagged c ing rs r hrs hr hd
+    (pre post : List Ev) (sts : List St) (hdec : Decorates sts (pre ++ o.log ++ post))
+    (active : Str) (recs : List Rec) (uriOf : St → List Char) (r0 res : C04.Results)
+    (hrep : reportS active recs uriOf r0 sts = some res)
+    (hrec : ing = true → ∀ s ∈ sts, s.ing = true →
+      (s.code = cSelfRedacted ∨ s.code = cActionRedacted ∨ s.code = cHashRedacted) →
+        recordedIn recs s = false) :
+    C04.state res = .invalid := by
+  obtain ⟨e, he, hf, hing, hc⟩ := disallowed_redaction_flagged c ing rs r hrs hr hd
   obtain ⟨_, _, _, _, hhead, _⟩ := verifyClaim_log_contains c reds map ing o h
   have hin : e ∈ o.log := hhead e (List.mem_append_left _ (List.mem_append_right _ he))
+  have hin' : e ∈ pre ++ o.log ++ post := List.mem_append_left _ (List.mem_append_right _ hin)
   have ht : C04.tolerated e.code = false := by
     obtain ⟨t1, t2, t3, _⟩ := redaction_codes_not_tolerated
     rcases hc with hc | hc | hc <;> rw [hc] <;> assumption
-  exact report_invalid keep uriOf r0 _ e
-    (List.mem_append_left _ (List.mem_append_right _ hin)) (hkeep e hin hf hc) hf ht
+  cases hi : ing
+  · exact active_scope_failure_invalid _ e hin' hf (by rw [hing, hi]) ht sts hdec active recs uriOf r0 res hrep
+  · refine unrecorded_failure_invalid _ e hin' hf ht sts hdec active recs uriOf r0 res ?_ hrep
+    intro s hs hcode hsi
+    exact hrec hi s hs hsi (by rw [hcode]; exact hc)
 
 /-- **store level, active manifest** — `verify_store` on a store whose active manifest has a
-disallowed redaction entry either returns `Err` (the Reader fails) or its log, turned into
-validation results (statuses of the active manifest are never filtered), gives `Invalid`. -/
+disallowed redaction entry either returns `Err` (the Reader fails) or the Reader's state is
+`Invalid`: for every URL the logged items carry and **whatever the ingredient assertions of the
+store record** (no `keep` hypothesis: statuses of the active claim's own validation are never
+filtered by `from_store`). -/
 theorem active_disallowed_redaction_never_valid (s : Store) (o : Out) (h : verifyStore s = some o)
     (root : Claim) (hroot : s.getLast? = some root)
     (rs : List Str) (r : Str) (hrs : root.redactions = some rs) (hr : r ∈ rs) (hd : Disallowed root r)
-    (keep : Ev → Bool) (uriOf : Ev → List Char) (r0 : C04.Results)
-    (hkeep : ∀ e, e.ing = false → keep e = true) :
-    o.err = true ∨ C04.state (report keep uriOf r0 o.log) = .invalid := by
+    (sts : List St) (hdec : Decorates sts o.log)
+    (active : Str) (recs : List Rec) (uriOf : St → List Char) (r0 res : C04.Results)
+    (hrep : reportS active recs uriOf r0 sts = some res) :
+    o.err = true ∨ C04.state res = .invalid := by
   rcases verifyStore_contains_root s o h with herr | ⟨root', reds, map, vc, hr', hv, hsub⟩
   · exact Or.inl herr
   · right
@@ -173,7 +197,75 @@ theorem active_disallowed_redaction_never_valid (s : Store) (o : Out) (h : verif
     have ht : C04.tolerated e.code = false := by
       obtain ⟨t1, t2, t3, _⟩ := redaction_codes_not_tolerated
       rcases hc with hc | hc | hc <;> rw [hc] <;> assumption
-    exact report_invalid keep uriOf r0 _ e hin (hkeep e hing) hf ht
+    exact active_scope_failure_invalid _ e hin hf hing ht sts hdec active recs uriOf r0 res hrep
+
+/-- the filter as it was before the repair: no exemption for statuses of the active claim's own
+validation -/
+def keepOld (active : Str) (recs : List Rec) (s : St) : P Bool := do
+  let a ← isActiveUrl active s.url
+  pure (a || !recordedIn recs s)
+
+def exBypassSt : St :=
+  ⟨cHashRedacted, some "self#jumbf=/c2pa/urn:c2pa:ing/c2pa.assertions/c2pa.hash.data".toList, .failure, false⟩
+
+/-- **counter-example to the full statement on the unrepaired filter** (replayed on the
+implementation by the harness): the status the validator logs for a redaction of the
+ingredient's hard binding, recorded by the active manifest's signer in its own ingredient
+assertion, is dropped by the old predicate and kept by the repaired one. -/
+theorem prefix_filter_bypass :
+    keepOld "urn:c2pa:act".toList [⟨exBypassSt.code, exBypassSt.url, .failure⟩] exBypassSt = some false ∧
+    keep "urn:c2pa:act".toList [⟨exBypassSt.code, exBypassSt.url, .failure⟩] exBypassSt = some true := by
+  decide
+
+/-! ### what a redaction *targets* (parsed key) versus what the rule *tests* (URI text) -/
+
+/-- **protected_target_disallowed** — a redaction URI from which `assertion_label_from_link`
+extracts a label that starts with `c2pa.actions` or with a hard-binding label is `Disallowed`
+for every claim: the `contains` tests of the rule block see the label in the URI text. (A change
+of URI normalisation under which the skip of the assertion loop still matches but the literal
+`contains` does not would break this theorem's proof through the C34 model.) -/
+theorem protected_target_disallowed (c : Claim) (r l : Str) (i : Nat)
+    (hl : assertionLabelFromLink r = some (l, i))
+    (hp : cActions.isPrefixOf l = true ∨ ∃ h ∈ hashLabels, h.isPrefixOf l = true) :
+    Disallowed c r := by
+  rcases hp with h | ⟨p, hp, h⟩
+  · exact Or.inr (Or.inl (label_prefix_in_uri r l i hl cActions (Or.inl rfl) h))
+  · exact Or.inr (Or.inr ⟨p, hp, label_prefix_in_uri r l i hl p (Or.inr hp) h⟩)
+
+/-- a redaction URI whose manifest label (`manifest_label_from_uri`) is the claim's own label is
+`Disallowed` (self-redaction) -/
+theorem self_target_disallowed (c : Claim) (r : Str)
+    (hm : manifestLabelFromUri r = some (some c.label)) : Disallowed c r :=
+  Or.inl (manifest_label_in_uri r c.label hm)
+
+/-- in terms of the parsed key the assertion loop uses for its skip: whenever a redaction entry
+of a claim would make the loop skip (`isRedacted`) a hashed URI whose label is protected, or a
+hashed URI of the claim itself, the entry is `Disallowed` — and therefore flagged
+(`disallowed_redaction_flagged`) -/
+theorem skipping_protected_is_disallowed (c : Claim) (r : Str) (k : RedKey)
+    (hk : parseRedaction r = some k)
+    (hp : k.manifest = c.label ∧ k.manifest ≠ [] ∨ cActions.isPrefixOf k.label = true ∨
+      ∃ h ∈ hashLabels, h.isPrefixOf k.label = true) : Disallowed c r := by
+  unfold parseRedaction at hk
+  cases hm : manifestLabelFromUri r with
+  | none => simp [hm] at hk
+  | some om =>
+    cases hl : assertionLabelFromLink r with
+    | none => simp [hm, hl] at hk
+    | some li =>
+      obtain ⟨l, i⟩ := li
+      simp only [hm, hl, Option.bind_eq_bind, Option.bind_some, Option.pure_def,
+        Option.some.injEq] at hk
+      subst hk
+      rcases hp with ⟨h1, h2⟩ | h | h
+      · cases om with
+        | none => simp at h2
+        | some m =>
+          simp only [Option.getD_some] at h1
+          rw [h1] at hm
+          exact self_target_disallowed c r hm
+      · exact protected_target_disallowed c r l i hl (Or.inl h)
+      · exact protected_target_disallowed c r l i hl (Or.inr h)
 
 /-! ### removal / change without a matching redaction -/
 
@@ -187,10 +279,11 @@ theorem removal_without_redaction_invalid (c : Claim) (reds : List Str) (map : L
     (r : Ref) (hr : r ∈ refs)
     (hnot : isRedacted keys c.label r.label r.inst = false)
     (hgone : findCA c r.label r.inst = none)
-    (pre post : List Ev) (keep : Ev → Bool) (uriOf : Ev → List Char) (r0 : C04.Results)
-    (hkeep : keep (fail "assertion.missing" ing) = true) :
-    fail "assertion.missing" ing ∈ o.log ∧
-    C04.state (report keep uriOf r0 (pre ++ o.log ++ post)) = .invalid := by
+    (pre post : List Ev) (sts : List St) (hdec : Decorates sts (pre ++ o.log ++ post))
+    (active : Str) (recs : List Rec) (uriOf : St → List Char) (r0 res : C04.Results)
+    (hrep : reportS active recs uriOf r0 sts = some res)
+    (hrec : ing = true → ∀ s ∈ sts, s.code = cMissing → s.ing = true → recordedIn recs s = false) :
+    fail "assertion.missing" ing ∈ o.log ∧ C04.state res = .invalid := by
   obtain ⟨keys', refs', hk', hr', _, hloop⟩ := verifyClaim_log_contains c reds map ing o h
   rw [hk] at hk'; cases hk'
   rw [hrefs] at hr'; cases hr'
@@ -198,9 +291,15 @@ theorem removal_without_redaction_invalid (c : Claim) (reds : List Str) (map : L
   have hin : fail "assertion.missing" ing ∈ o.log :=
     hloop _ (ht _ (step_missing c keys ing t r hnot hgone))
   refine ⟨hin, ?_⟩
-  exact report_invalid keep uriOf r0 _ _
-    (List.mem_append_left _ (List.mem_append_right _ hin)) hkeep rfl
-    redaction_codes_not_tolerated.2.2.2.1
+  have hin' : fail "assertion.missing" ing ∈ pre ++ o.log ++ post :=
+    List.mem_append_left _ (List.mem_append_right _ hin)
+  cases hi : ing
+  · rw [hi] at hin'
+    exact active_scope_failure_invalid _ _ hin' rfl rfl redaction_codes_not_tolerated.2.2.2.1
+      sts hdec active recs uriOf r0 res hrep
+  · rw [hi] at hin'
+    exact unrecorded_failure_invalid _ _ hin' rfl redaction_codes_not_tolerated.2.2.2.1
+      sts hdec active recs uriOf r0 res (hrec hi) hrep
 
 /-- the same for assertion data changed (not removed) after signing -/
 theorem change_without_redaction_invalid (c : Claim) (reds : List Str) (map : List Claim) (ing : Bool)
@@ -210,18 +309,94 @@ theorem change_without_redaction_invalid (c : Claim) (reds : List Str) (map : Li
     (r : Ref) (hr : r ∈ refs) (ca : CA)
     (hnot : isRedacted keys c.label r.label r.inst = false)
     (hfound : findCA c r.label r.inst = some ca) (hchanged : ca.hash ≠ r.hu.hash)
-    (pre post : List Ev) (keep : Ev → Bool) (uriOf : Ev → List Char) (r0 : C04.Results)
-    (hkeep : keep (fail "assertion.hashedURI.mismatch" ing) = true) :
-    C04.state (report keep uriOf r0 (pre ++ o.log ++ post)) = .invalid := by
+    (pre post : List Ev) (sts : List St) (hdec : Decorates sts (pre ++ o.log ++ post))
+    (active : Str) (recs : List Rec) (uriOf : St → List Char) (r0 res : C04.Results)
+    (hrep : reportS active recs uriOf r0 sts = some res)
+    (hrec : ing = true → ∀ s ∈ sts, s.code = cMismatch → s.ing = true → recordedIn recs s = false) :
+    C04.state res = .invalid := by
   obtain ⟨keys', refs', hk', hr', _, hloop⟩ := verifyClaim_log_contains c reds map ing o h
   rw [hk] at hk'; cases hk'
   rw [hrefs] at hr'; cases hr'
   obtain ⟨t, ht⟩ := step_sub_loop c keys ing refs c.store r hr
   have hin : fail "assertion.hashedURI.mismatch" ing ∈ o.log :=
     hloop _ (ht _ (step_mismatch c keys ing t r ca hnot hfound hchanged))
-  exact report_invalid keep uriOf r0 _ _
-    (List.mem_append_left _ (List.mem_append_right _ hin)) hkeep rfl
-    redaction_codes_not_tolerated.2.2.2.2.1
+  have hin' : fail "assertion.hashedURI.mismatch" ing ∈ pre ++ o.log ++ post :=
+    List.mem_append_left _ (List.mem_append_right _ hin)
+  cases hi : ing
+  · rw [hi] at hin'
+    exact active_scope_failure_invalid _ _ hin' rfl rfl redaction_codes_not_tolerated.2.2.2.2.1
+      sts hdec active recs uriOf r0 res hrep
+  · rw [hi] at hin'
+    exact unrecorded_failure_invalid _ _ hin' rfl redaction_codes_not_tolerated.2.2.2.2.1
+      sts hdec active recs uriOf r0 res (hrec hi) hrep
+
+/-- **store level, active manifest** — an assertion of the active manifest removed (or never
+stored) while its hashed URI is still in the claim and no redaction of the hierarchy
+(`svi.redactions` = `g.reds`) covers it: `verify_store` returns `Err` or the Reader's state is
+`Invalid`, whatever the ingredient assertions record. -/
+theorem active_removal_never_valid (s : Store) (o : Out) (h : verifyStore s = some o)
+    (root : Claim) (hroot : s.getLast? = some root)
+    (g : GSt) (hg : gcrm s (fuelFor s) root [] {} = .ok g)
+    (keys : List RedKey) (refs : List Ref)
+    (hk : parseRedactions g.reds = some keys) (hrefs : parseRefs root.assertions = some refs)
+    (r : Ref) (hr : r ∈ refs)
+    (hnot : isRedacted keys root.label r.label r.inst = false)
+    (hgone : findCA root r.label r.inst = none)
+    (sts : List St) (hdec : Decorates sts o.log)
+    (active : Str) (recs : List Rec) (uriOf : St → List Char) (r0 res : C04.Results)
+    (hrep : reportS active recs uriOf r0 sts = some res) :
+    o.err = true ∨ C04.state res = .invalid := by
+  cases herr : o.err
+  · right
+    obtain ⟨g', vc, hg', hv, _, hsub, _⟩ := verifyStore_reaches_ingredients s o h herr root hroot
+    rw [hg] at hg'; cases hg'
+    obtain ⟨keys', refs', hk', hr', _, hloop⟩ :=
+      verifyClaim_log_contains root g.reds _ false vc hv
+    rw [hk] at hk'; cases hk'
+    rw [hrefs] at hr'; cases hr'
+    obtain ⟨t, ht⟩ := step_sub_loop root keys false refs root.store r hr
+    have hin : fail "assertion.missing" false ∈ o.log :=
+      hsub _ (hloop _ (ht _ (step_missing root keys false t r hnot hgone)))
+    exact active_scope_failure_invalid _ _ hin rfl rfl redaction_codes_not_tolerated.2.2.2.1
+      sts hdec active recs uriOf r0 res hrep
+  · exact Or.inl rfl
+
+/-- **store level, ingredient at depth 1** (the property's main case) — an assertion removed
+from an ingredient manifest `ic` of the active manifest (the ingredient edge `x` resolves to
+`ic`) while its hashed URI is still in `ic`'s claim and no redaction of the hierarchy covers
+it: `verify_store` returns `Err`, or the Reader's state is `Invalid` **unless an ingredient
+assertion of the store records exactly that `assertion.missing` status** (C2PA: a failure of an
+ingredient that its importer recorded is not reported again; `keep_false_iff` is the exact
+condition). -/
+theorem ingredient_removal_never_valid (s : Store) (o : Out) (h : verifyStore s = some o)
+    (root : Claim) (hroot : s.getLast? = some root)
+    (g : GSt) (hg : gcrm s (fuelFor s) root [] {} = .ok g)
+    (x : CA × Option IngD) (hx : x ∈ ingAssertions root)
+    (d : IngD) (t : HU) (il : Str) (ic : Claim) (hres : Resolves s x d t il ic)
+    (keys : List RedKey) (refs : List Ref)
+    (hk : parseRedactions g.reds = some keys) (hrefs : parseRefs ic.assertions = some refs)
+    (r : Ref) (hr : r ∈ refs)
+    (hnot : isRedacted keys ic.label r.label r.inst = false)
+    (hgone : findCA ic r.label r.inst = none)
+    (sts : List St) (hdec : Decorates sts o.log)
+    (active : Str) (recs : List Rec) (uriOf : St → List Char) (r0 res : C04.Results)
+    (hrep : reportS active recs uriOf r0 sts = some res)
+    (hrec : ∀ s ∈ sts, s.code = cMissing → s.ing = true → recordedIn recs s = false) :
+    o.err = true ∨ C04.state res = .invalid := by
+  cases herr : o.err
+  · right
+    obtain ⟨g', _, hg', _, _, _, hreach⟩ := verifyStore_reaches_ingredients s o h herr root hroot
+    rw [hg] at hg'; cases hg'
+    obtain ⟨vc, hv, _, _, _, hsub⟩ := hreach x hx d t il ic hres
+    obtain ⟨keys', refs', hk', hr', _, hloop⟩ := verifyClaim_log_contains ic g.reds _ true vc hv
+    rw [hk] at hk'; cases hk'
+    rw [hrefs] at hr'; cases hr'
+    obtain ⟨tr, ht⟩ := step_sub_loop ic keys true refs ic.store r hr
+    have hin : fail "assertion.missing" true ∈ o.log :=
+      hsub _ (hloop _ (ht _ (step_missing ic keys true tr r hnot hgone)))
+    exact unrecorded_failure_invalid _ _ hin rfl redaction_codes_not_tolerated.2.2.2.1
+      sts hdec active recs uriOf r0 res hrec hrep
+  · exact Or.inl rfl
 
 /-- ingredient level: a manifest whose box hash no longer equals the ingredient's hashed URI
 (nor the pre-1.3 hash), with no redaction of the hierarchy mentioning its label, is a
@@ -301,6 +476,81 @@ theorem redact_assertion_exact (c c' : Claim) (uri : Str) (hstore : containsSub 
                   | (simp only [Option.some.injEq, Except.ok.injEq] at h
                      exact ⟨l, i, target, pre, a, post, rfl, ht, hp'.1, hp'.2, h1, by rw [← h], h3, h4, h.symm⟩)
                   | (simp at h)
+
+/-- the data-box branch: a successful run removes exactly the first data box whose normalised URL
+is the normalised data-box URI of the requested box name -/
+theorem redactDatabox_exact (c c' : Claim) (uri : Str) (h : redactDatabox c uri = some (.ok c')) :
+    ∃ bn target pre b post,
+      boxNameFromUri uri = some (some bn) ∧
+      toNormalizedUri (toDataboxUri c.label bn) = some target ∧
+      c.databoxes = pre ++ b :: post ∧ toNormalizedUri b.1 = some target ∧
+      (∀ x ∈ pre, toNormalizedUri x.1 ≠ some target) ∧
+      c' = { c with databoxes := pre ++ post } := by
+  unfold redactDatabox at h
+  cases hb : boxNameFromUri uri with
+  | none => simp [hb] at h
+  | some obn =>
+    cases obn with
+    | none => simp [hb] at h
+    | some bn =>
+      simp only [hb, Option.bind_eq_bind, Option.bind_some] at h
+      cases ht : toNormalizedUri (toDataboxUri c.label bn) with
+      | none => simp [ht] at h
+      | some target =>
+        simp only [ht, Option.bind_some] at h
+        cases he : eraseBox target c.databoxes with
+        | none => simp [he] at h
+        | some o =>
+          cases o with
+          | none => simp [he] at h
+          | some bs =>
+            simp [he] at h
+            obtain ⟨pre, b, post, h1, h2, h3, h4⟩ := eraseBox_some target c.databoxes bs he
+            subst h2
+            exact ⟨bn, target, pre, b, post, rfl, ht, h1, h3, h4, h.symm⟩
+
+/-- **redaction_exact (data box)** — a successful `redact_assertion` of a URI outside the
+assertion store went through the data-box branch: it removes exactly one data box (see
+`redactDatabox_exact`) and changes nothing else of the claim, in particular not the assertion
+store. -/
+theorem redact_databox_exact (c c' : Claim) (uri : Str) (hstore : containsSub cAssertions uri = false)
+    (h : redactAssertion c uri = some (.ok c')) :
+    containsSub cDataboxes uri = true ∧ redactDatabox c uri = some (.ok c') ∧ c'.store = c.store := by
+  unfold redactAssertion at h
+  cases hl : assertionLabelFromLink uri with
+  | none => simp [hl] at h
+  | some li =>
+    obtain ⟨l, i⟩ := li
+    simp only [hl, Option.bind_eq_bind, Option.bind_some] at h
+    by_cases hp : (cActions.isPrefixOf l || cHashPrefix.isPrefixOf l) = true
+    · simp [hp] at h
+    · rw [if_neg hp] at h
+      cases hm : manifestLabelFromUri uri with
+      | none => simp [hm] at h
+      | some m =>
+        simp only [hm, Option.bind_some] at h
+        have hns : ¬ (containsSub cAssertions uri = true) := by rw [hstore]; simp
+        have hfin : ∀ (hh : (if containsSub cDataboxes uri = true then redactDatabox c uri
+              else pure (Except.error RErr.notFound)) = some (Except.ok c')),
+            containsSub cDataboxes uri = true ∧ redactDatabox c uri = some (.ok c') ∧ c'.store = c.store := by
+          intro hh
+          by_cases hd : containsSub cDataboxes uri = true
+          · rw [if_pos hd] at hh
+            refine ⟨hd, hh, ?_⟩
+            obtain ⟨_, _, pre, _, post, _, _, _, _, _, hc'⟩ := redactDatabox_exact c c' uri hh
+            rw [hc']
+          · rw [if_neg hd] at hh; simp at hh
+        cases m with
+        | none =>
+          simp only [Bool.false_eq_true, if_false] at h
+          rw [if_neg hns] at h
+          exact hfin h
+        | some ml =>
+          simp only [] at h
+          by_cases hml : (ml != c.label) = true
+          · rw [if_pos hml] at h; simp at h
+          · rw [if_neg hml, if_neg hns] at h
+            exact hfin h
 
 /-- the redacted assertion is gone: when labels-with-instance are unique in the store (they are
 for every store built by `add_assertion`), no assertion with the requested label remains -/
@@ -454,6 +704,193 @@ theorem legal_redaction_still_clean (c : Claim) (pre post : List CA) (a : CA)
       · exact hf
       · cases hl : (a.label == r.label) <;> cases hi : (a.inst == r.inst) <;> simp_all
 
+/-- **still validates, whole `verify_claim`** — let `verify_claim` on the claim `c` return `Ok`
+with a failure-free log under the hierarchy's redactions `reds`. Remove one assertion `a` that is
+neither an actions nor an ingredient assertion, and let the (longer) redaction list `reds'`
+contain an entry that parses to `a`'s key in this manifest. Then `verify_claim` on the reduced
+claim `c'` (any manifest map `map'` that agrees with `map` on labels and hashed-URI lists — the
+redacted ingredient claims differ from the original ones only in their assertion stores) again
+returns `Ok` with a failure-free log: no `assertion.undeclared` from the tracking list, no
+rule-block failure, no `assertion.missing`, no rule-2.d failure. -/
+theorem legal_redaction_verifyClaim_clean (c c' : Claim) (pre post : List CA) (a : CA)
+    (reds reds' : List Str) (map map' : List Claim) (ing : Bool) (o : Out) (keys' : List RedKey)
+    (hs : c.store = pre ++ a :: post) (hc' : c' = { c with store := pre ++ post })
+    (hacts : a.acts? = none) (hing : a.ing? = none)
+    (h : verifyClaim c reds map ing = some o) (he : o.err = false)
+    (hclean : ∀ e ∈ o.log, e.isFailure = false)
+    (hsub : ∀ r ∈ reds, r ∈ reds') (hk' : parseRedactions reds' = some keys')
+    (hl : ∃ r ∈ reds', parseRedaction r = some ⟨c.label, a.label, a.inst⟩)
+    (hm : map.map ckey = map'.map ckey) :
+    ∃ o', verifyClaim c' reds' map' ing = some o' ∧ o'.err = false ∧
+      ∀ e ∈ o'.log, e.isFailure = false := by
+  obtain ⟨keys, refs, hk, hr, hcase⟩ := verifyClaim_spec c reds map ing o h
+  rcases hcase with ⟨_, herr, _⟩ | ⟨htrack, _, av, hav, hlog⟩
+  · rw [he] at herr; cases herr
+  -- fields of the reduced claim
+  have hs' : c'.store = pre ++ post := by rw [hc']
+  have hlab : c'.label = c.label := by rw [hc']
+  have hass : c'.assertions = c.assertions := by rw [hc']
+  have hred : c'.redactions = c.redactions := by rw [hc']
+  have hupd : c'.update = c.update := by rw [hc']
+  have hsig : c'.sigOk = c.sigOk := by rw [hc']
+  -- the listed key
+  have hlisted : (⟨c.label, a.label, a.inst⟩ : RedKey) ∈ keys' := by
+    obtain ⟨r, hr', hp⟩ := hl
+    obtain ⟨k, hkm, hp'⟩ := (parseRedactions_mem reds' keys' hk').1 r hr'
+    rw [hp] at hp'; cases hp'; exact hkm
+  -- the assertion loop of the reduced claim is failure-free and consumes the whole store
+  have hloopc : ∀ r ∈ refs, RefClean c keys r := by
+    apply (loop_no_failure_iff c keys ing refs c.store).1
+    intro e hel
+    exact hclean e (by rw [hlog]; exact List.mem_append_left _ (List.mem_append_right _ hel))
+  have hclean' := legal_redaction_still_clean c pre post a keys keys' refs hs
+    (keys_mono reds reds' keys keys' hk hk' hsub) hlisted hloopc
+  rw [← hc'] at hclean'
+  have hloop' : ∀ e ∈ (assertionLoop c' keys' ing refs c'.store).1, e.isFailure = false :=
+    (loop_no_failure_iff c' keys' ing refs c'.store).2 hclean'
+  have htrack' : (assertionLoop c' keys' ing refs c'.store).2 = [] := by
+    refine track_nil_of_sublist c c' keys keys' ing refs c.store c'.store ?_ htrack
+    rw [hs, hs']
+    exact List.Sublist.append_left (List.sublist_cons_self a post) pre
+  -- rule 2.d
+  have hav' : actionsFor c' map' ing = some av := by
+    have hver : c'.version = c.version := by rw [hc']
+    unfold actionsFor at hav ⊢
+    rw [hver, actionAssertions_remove c c' pre post a hs hs' hacts,
+      ← actionsEvents_congr c c' map map' ing hred.symm hm]
+    exact hav
+  refine ⟨⟨sigEvents c' ing ++ redactionRules c' ing ++ manifestRules c' ing ++
+      (assertionLoop c' keys' ing refs c'.store).1 ++ av, false⟩, ?_, rfl, ?_⟩
+  · unfold verifyClaim
+    rw [hk', hass, hr]
+    simp only [Option.bind_eq_bind, Option.bind_some]
+    cases hl' : assertionLoop c' keys' ing refs c'.store with
+    | mk ev tr =>
+      rw [hl'] at htrack'
+      simp only [] at htrack'
+      subst htrack'
+      simp only [List.isEmpty_nil, Bool.not_true, Bool.false_eq_true, if_false, hav',
+        Option.bind_some, Option.pure_def]
+  · intro e hmem
+    simp only [List.mem_append] at hmem
+    have hhead : ∀ e ∈ headEvents c ing, e.isFailure = false := fun e hh =>
+      hclean e (by rw [hlog]; exact List.mem_append_left _ (List.mem_append_left _ hh))
+    rcases hmem with (((hmem | hmem) | hmem) | hmem) | hmem
+    · apply hhead
+      unfold headEvents
+      have : sigEvents c' ing = sigEvents c ing := by unfold sigEvents; rw [hsig]
+      rw [this] at hmem
+      exact List.mem_append_left _ (List.mem_append_left _ hmem)
+    · apply hhead
+      unfold headEvents
+      have : redactionRules c' ing = redactionRules c ing := by
+        unfold redactionRules; rw [hred, hlab]
+      rw [this] at hmem
+      exact List.mem_append_left _ (List.mem_append_right _ hmem)
+    · apply hhead
+      unfold headEvents
+      exact List.mem_append_right _
+        (manifestRules_remove c c' ing pre post a hs hs' hupd hacts hing e hmem)
+    · exact hloop' e hmem
+    · exact hclean e (by rw [hlog]; exact List.mem_append_right _ hmem)
+
+/-! ### the Builder's loop over several ingredients -/
+
+/-- what one `add_ingredient_data` call does to the claim's redaction list -/
+theorem addIngredientData_spec (self self' : Option (List Str)) (batch b : List Claim) (rq : List Str)
+    (h : addIngredientData self batch (some rq) = some (.ok (self', b))) :
+    ∃ ap, ap.Sublist rq ∧ self'.getD [] = self.getD [] ++ ap := by
+  unfold addIngredientData at h
+  simp only [Option.getD_some] at h
+  cases ha : applyRedactions rq batch with
+  | none => simp [ha] at h
+  | some x =>
+    simp only [ha, Option.bind_eq_bind, Option.bind_some] at h
+    cases x with
+    | error e => simp at h
+    | ok p =>
+      obtain ⟨b', ap⟩ := p
+      simp at h
+      obtain ⟨h1, _⟩ := h
+      refine ⟨ap, applied_sublist rq batch b' ap ha, ?_⟩
+      rw [← h1]
+      cases self with
+      | some ex => simp
+      | none => cases ap <;> simp
+
+/-- `Builder::to_claim`: one `Ingredient::add_to_claim` → `Store::load_ingredient_to_claim` →
+`add_ingredient_data(claims, Some(list_k))` per ingredient; `list_k` is the de-duplicated
+`definition.redactions` in hash-set order (plus, on a conflict, redactions already carried by the
+stored copy). `none` = a call failed. -/
+def builderLoop : Option (List Str) → List (List Claim × List Str) → Option (Option (List Str))
+  | self, [] => some self
+  | self, (batch, rq) :: rest =>
+    match addIngredientData self batch (some rq) with
+    | some (.ok (self', _)) => builderLoop self' rest
+    | _ => none
+
+theorem builderLoop_listed (reqs : List Str) :
+    ∀ (ings : List (List Claim × List Str)) (self final : Option (List Str)),
+      (∀ p ∈ ings, ∀ r ∈ p.2, r ∈ reqs) → (∀ r ∈ self.getD [], r ∈ reqs) →
+      builderLoop self ings = some final → ∀ r ∈ final.getD [], r ∈ reqs := by
+  intro ings
+  induction ings with
+  | nil =>
+    intro self final _ hself h
+    simp [builderLoop] at h
+    subst h
+    exact hself
+  | cons p rest ih =>
+    intro self final hsub hself h
+    obtain ⟨batch, rq⟩ := p
+    unfold builderLoop at h
+    cases ha : addIngredientData self batch (some rq) with
+    | none => simp [ha] at h
+    | some x =>
+      cases x with
+      | error e => simp [ha] at h
+      | ok q =>
+        obtain ⟨self', b⟩ := q
+        simp only [ha] at h
+        obtain ⟨ap, hap, hself'⟩ := addIngredientData_spec self self' batch b rq ha
+        refine ih self' final (fun p hp => hsub p (List.mem_cons_of_mem _ hp)) ?_ h
+        intro r hr
+        rw [hself'] at hr
+        rcases List.mem_append.1 hr with hr | hr
+        · exact hself r hr
+        · exact hsub (batch, rq) (List.mem_cons_self ..) r (hap.subset hr)
+
+/-- **redaction_exact (listed = requested), the Builder's real call pattern** — any number of
+ingredients, each handled by its own `add_ingredient_data` call on the growing claim with a
+request list drawn from the definition's redactions (any order, de-duplicated or not); if all
+calls succeed and the post-check accepts, the claim lists exactly the requested redactions
+(as sets: the code goes through a `HashSet`, so order and multiplicity are not determined). -/
+theorem listed_exactly_requested_chain (reqs : List Str) (ings : List (List Claim × List Str))
+    (final : Option (List Str))
+    (hsub : ∀ p ∈ ings, ∀ r ∈ p.2, r ∈ reqs)
+    (h : builderLoop none ings = some final)
+    (hpost : builderPostCheck final (some reqs) = true) :
+    ∀ r, r ∈ final.getD [] ↔ r ∈ reqs := by
+  intro r
+  constructor
+  · exact builderLoop_listed reqs ings none final hsub (by simp) h r
+  · intro hr
+    unfold builderPostCheck at hpost
+    simp only [List.all_eq_true] at hpost
+    simpa using hpost r hr
+
+/-! ### constants read from the sources (translators/c20_labels.py) -/
+
+theorem cActions_gen : cActions = Gen.actions := rfl
+theorem hashLabels_gen : hashLabels = Gen.hashLabels := rfl
+theorem cHashPrefix_gen : cHashPrefix = Gen.signerHashPrefix := rfl
+theorem cIngredientLabel_gen : cIngredientLabel = Gen.ingredient := rfl
+
+/-- the signer refuses the *prefix* `c2pa.hash.`, the validator flags the four literal labels:
+every label the validator protects is also refused by the signer -/
+theorem validator_hash_labels_refused_by_signer :
+    ∀ l ∈ hashLabels, cHashPrefix.isPrefixOf l = true := by decide
+
 /-! ### non-vacuity -/
 
 def exUri : Str := "self#jumbf=/c2pa/urn:c2pa:aa/c2pa.assertions/org.note".toList
@@ -486,5 +923,214 @@ example : redactionRules { exClaim with redactions := some [exUri] } false
     = [fail "assertion.selfRedacted" false] := by decide
 example : redactionRules { exClaim with label := "urn:c2pa:bb".toList, redactions := some [exUri] } false
     = [] := by decide
+
+/-! a two-manifest store: base `…0b` (hard binding + a note), active `…0a` with the base as
+`parentOf` ingredient; the hypotheses of the store-level theorems are met by it with
+`o.err = false` (the right disjunct is the one that matters) -/
+
+def lB : Str := "urn:c2pa:00000000-0000-4000-8000-00000000000b".toList
+def lA : Str := "urn:c2pa:00000000-0000-4000-8000-00000000000a".toList
+def uriB (l : String) : Str := "self#jumbf=/c2pa/".toList ++ lB ++ "/c2pa.assertions/".toList ++ l.toList
+
+def exHashCA (h : String) : CA := ⟨"c2pa.hash.data".toList, 0, h.toList, false, .hash⟩
+
+/-- the base manifest; `withNote = false`: its note assertion was removed from the store -/
+def exBase (withNote : Bool) : Claim :=
+  { label := lB, version := 2, update := false, sigOk := true,
+    assertions := [⟨"self#jumbf=c2pa.assertions/c2pa.hash.data".toList, "h9".toList⟩,
+                   ⟨"self#jumbf=c2pa.assertions/org.note".toList, "h1".toList⟩],
+    store := [exHashCA "h9"] ++ (if withNote then [exNote] else []), redactions := none,
+    boxHash := (if withNote then "b1" else "b2").toList, sigHash := "sb".toList, dataHash := "db".toList }
+
+def exIngCA (boxHash : String) : CA :=
+  ⟨"c2pa.ingredient.v3".toList, 0, "h5".toList, false,
+    .ingredient (some ⟨.parentOf, 3, true,
+      some ⟨"self#jumbf=/c2pa/".toList ++ lB, boxHash.toList⟩,
+      some ⟨"self#jumbf=/c2pa/".toList ++ lB ++ "/c2pa.signature".toList, "sb".toList⟩⟩)⟩
+
+def exActive (boxHash : String) (reds : Option (List Str)) : Claim :=
+  { label := lA, version := 2, update := false, sigOk := true,
+    assertions := [⟨"self#jumbf=c2pa.assertions/c2pa.hash.data".toList, "h7".toList⟩,
+                   ⟨"self#jumbf=c2pa.assertions/c2pa.ingredient.v3".toList, "h5".toList⟩],
+    store := [exHashCA "h7", exIngCA boxHash], redactions := reds,
+    boxHash := "ba".toList, sigHash := "sa".toList, dataHash := "da".toList }
+
+/-- the base's note was removed, the ingredient's hashed URI re-made, no redaction entry -/
+def exStoreSilentRemoval : Store := [exBase false, exActive "b2" none]
+
+/-! `verify_store` of the model is defined by well-founded mutual recursion (`gcrm`/`gLoop`,
+`hbm`/`hbScan`, `ingChecks`/`iLoop`), which neither `decide` nor the kernel unfolds; the runs
+below are therefore computed step by step from the equation lemmas. -/
+
+/-- (1) a single manifest that lists a redaction of some other manifest's actions assertion -/
+def exSolo : Claim :=
+  { label := lA, version := 2, update := false, sigOk := true,
+    assertions := [⟨"self#jumbf=c2pa.assertions/c2pa.hash.data".toList, "h7".toList⟩],
+    store := [exHashCA "h7"], redactions := some [uriB "c2pa.actions.v2"],
+    boxHash := "ba".toList, sigHash := "sa".toList, dataHash := "da".toList }
+
+def logSolo : List Ev :=
+  [succ "claimSignature.insideValidity" false, succ "claimSignature.validated" false,
+    fail "assertion.action.redacted" false, succ "assertion.hashedURI.match" false]
+
+theorem exSolo_ing : ingAssertions exSolo = [] := by decide
+theorem exSolo_gcrm : gcrm [exSolo] 3 exSolo [] {} = .ok ⟨[uriB "c2pa.actions.v2"], [lA], []⟩ := by
+  unfold gcrm
+  simp only [exSolo_ing]
+  unfold gLoop
+  rfl
+theorem exSolo_hbm : hbm [exSolo] 3 exSolo [] = some (some lA) := by
+  unfold hbm
+  rfl
+theorem exSolo_vc : verifyClaim exSolo [uriB "c2pa.actions.v2"] [exSolo] false = some ⟨logSolo, false⟩ := by
+  decide
+theorem exSolo_ic (st : ISt) :
+    ingChecks [exSolo] [uriB "c2pa.actions.v2"] [exSolo] 3 exSolo st = .ok st := by
+  unfold ingChecks
+  simp only [exSolo_ing]
+  unfold iLoop
+  rfl
+theorem exSolo_run : verifyStore [exSolo] = some ⟨logSolo, false⟩ := by
+  unfold verifyStore
+  have hm : List.filterMap (getClaim [exSolo]) [lA] = [exSolo] := by decide
+  simp only [List.getLast?_singleton, fuelFor, List.length_singleton, Nat.reduceAdd, exSolo_gcrm,
+    exSolo_hbm, hm, exSolo_vc, exSolo_ic]
+  rfl
+
+/-- all hypotheses of `active_disallowed_redaction_never_valid` hold for `[exSolo]` with
+`o.err = false`: the right disjunct is the one that carries the statement -/
+example (sts : List St) (hdec : Decorates sts logSolo) (active : Str) (recs : List Rec)
+    (uriOf : St → List Char) (r0 res : C04.Results)
+    (hrep : reportS active recs uriOf r0 sts = some res) : C04.state res = .invalid := by
+  have := active_disallowed_redaction_never_valid [exSolo] ⟨logSolo, false⟩ exSolo_run exSolo rfl
+    [uriB "c2pa.actions.v2"] (uriB "c2pa.actions.v2") rfl (List.mem_singleton.2 rfl)
+    (Or.inr (Or.inl (by decide))) sts hdec active recs uriOf r0 res hrep
+  rcases this with h | h
+  · cases h
+  · exact h
+
+/-- (2) two manifests: the ingredient's note is gone -/
+abbrev sR : Store := exStoreSilentRemoval
+abbrev rootR : Claim := exActive "b2" none
+abbrev baseR : Claim := exBase false
+def tR : HU := ⟨"self#jumbf=/c2pa/".toList ++ lB, "b2".toList⟩
+def dR : IngD := ⟨.parentOf, 3, true, some tR,
+  some ⟨"self#jumbf=/c2pa/".toList ++ lB ++ "/c2pa.signature".toList, "sb".toList⟩⟩
+def logRoot : List Ev := [succ "claimSignature.insideValidity" false, succ "claimSignature.validated" false,
+  succ "assertion.hashedURI.match" false, succ "assertion.hashedURI.match" false]
+def logBase : List Ev := [succ "claimSignature.insideValidity" true, succ "claimSignature.validated" true,
+  succ "assertion.hashedURI.match" true, fail "assertion.missing" true]
+
+theorem hiRoot : ingAssertions rootR = [(exIngCA "b2", some dR)] := by decide
+theorem hiBase : ingAssertions baseR = [] := by decide
+theorem hLbl : labelFromPath tR.url = some lB := by decide
+theorem hT : dR.target = some tR := rfl
+theorem hGet : getClaim sR lB = some baseR := by decide
+theorem gcrmBase (st : GSt) (hc : st.map.contains lB = false) :
+    gcrm sR 3 baseR [lA] st = .ok { st with reds := st.reds ++ [], map := st.map ++ [lB] } := by
+  unfold gcrm
+  have : baseR.label = lB := rfl
+  simp only [this, hc, hiBase]
+  unfold gLoop
+  rfl
+theorem gcrmRoot : gcrm sR 4 rootR [] {} = .ok ⟨[], [lA, lB], []⟩ := by
+  unfold gcrm
+  simp only [hiRoot]
+  unfold gLoop
+  simp only [hT, hLbl, hGet]
+  simp
+  have hne : ¬ (baseR.label = rootR.label) := by decide
+  simp only [hne, if_false]
+  have hl : rootR.label = lA := rfl
+  rw [hl, gcrmBase _ (by decide)]
+  simp only []
+  unfold gLoop
+  rfl
+theorem hbmRoot : hbm sR 4 rootR [] = some (some lA) := by
+  unfold hbm
+  rfl
+theorem hMap : List.filterMap (getClaim sR) [lA, lB] = [rootR, baseR] := by decide
+theorem vcRoot : verifyClaim rootR [] [rootR, baseR] false = some ⟨logRoot, false⟩ := by decide
+theorem vcBase : verifyClaim baseR [] [rootR, baseR] true = some ⟨logBase, false⟩ := by decide
+theorem ecBase : edgeCheck [] lB dR tR baseR = ⟨[succ "ingredient.manifest.validated" true], false⟩ := by
+  decide
+theorem icBase (st : ISt) : ingChecks sR [] [rootR, baseR] 3 baseR st = .ok st := by
+  unfold ingChecks
+  simp only [hiBase]
+  unfold iLoop
+  rfl
+theorem hE0 : (decide (dR.version ≥ 3) && !dR.hasResults) = false := by decide
+theorem hZ : (exIngCA "b2").zero = false := rfl
+theorem icRoot : ingChecks sR [] [rootR, baseR] 4 rootR ⟨[lA], logRoot⟩ =
+    .ok ⟨[lA, lB], logRoot ++ [succ "ingredient.manifest.validated" true] ++ logBase⟩ := by
+  unfold ingChecks
+  simp only [hiRoot]
+  unfold iLoop
+  simp only [hT, hLbl, hGet, hZ, hE0, ecBase, vcBase]
+  simp
+  have hne : ¬ (baseR.label = lA) := by decide
+  simp only [hne, if_false, icBase]
+  unfold iLoop
+  rfl
+theorem exSilent_run : verifyStore sR =
+    some ⟨logRoot ++ [succ "ingredient.manifest.validated" true] ++ logBase, false⟩ := by
+  unfold verifyStore
+  have hlast : sR.getLast? = some rootR := rfl
+  have hl : rootR.label = lA := rfl
+  simp only [hlast, fuelFor, show sR.length = 2 from rfl, Nat.reduceAdd, gcrmRoot, hbmRoot, hMap, vcRoot,
+    List.nil_append, hl, icRoot]
+  rfl
+
+def refNote : Ref :=
+  ⟨⟨"self#jumbf=c2pa.assertions/org.note".toList, "h1".toList⟩, "org.note".toList, 0, none⟩
+def refsBase : List Ref :=
+  [⟨⟨"self#jumbf=c2pa.assertions/c2pa.hash.data".toList, "h9".toList⟩, "c2pa.hash.data".toList, 0, none⟩,
+   refNote]
+
+/-- all hypotheses of `ingredient_removal_never_valid` hold for this store with `o.err = false` -/
+example (sts : List St)
+    (hdec : Decorates sts (logRoot ++ [succ "ingredient.manifest.validated" true] ++ logBase))
+    (active : Str) (recs : List Rec) (uriOf : St → List Char) (r0 res : C04.Results)
+    (hrep : reportS active recs uriOf r0 sts = some res)
+    (hrec : ∀ s ∈ sts, s.code = cMissing → s.ing = true → recordedIn recs s = false) :
+    C04.state res = .invalid := by
+  have := ingredient_removal_never_valid sR _ exSilent_run rootR rfl ⟨[], [lA, lB], []⟩ gcrmRoot
+    (exIngCA "b2", some dR) (by rw [hiRoot]; exact List.mem_singleton.2 rfl) dR tR lB baseR
+    ⟨hZ, rfl, hT, hLbl, hGet⟩ [] refsBase rfl (by decide) refNote (by decide) (by decide) (by decide)
+    sts hdec active recs uriOf r0 res hrep hrec
+  rcases this with h | h
+  · cases h
+  · exact h
+
+/-- `reportS` on (1) does not panic and gives Invalid even when the ingredient assertions record
+exactly the logged failure with its URL -/
+def exDecor (log : List Ev) (url : Str) : List St := log.map fun e => ⟨e.code, some url, e.kind, e.ing⟩
+
+example : Decorates (exDecor logSolo (uriB "c2pa.actions.v2")) logSolo := by
+  unfold Decorates; decide
+
+example : (reportS lA [⟨cActionRedacted, some (uriB "c2pa.actions.v2"), .failure⟩] (fun _ => []) {}
+    (exDecor logSolo (uriB "c2pa.actions.v2"))).map C04.state = some .invalid := by
+  decide
+
+/-- hypotheses of `protected_target_disallowed` / `skipping_protected_is_disallowed` -/
+example : assertionLabelFromLink (uriB "c2pa.hash.bmff.v3") = some ("c2pa.hash.bmff.v3".toList, 0) ∧
+    "c2pa.hash.bmff".toList ∈ hashLabels ∧
+    "c2pa.hash.bmff".toList.isPrefixOf "c2pa.hash.bmff.v3".toList = true := by decide
+example : parseRedaction (uriB "c2pa.actions.v2__1") = some ⟨lB, "c2pa.actions.v2".toList, 1⟩ := by decide
+
+/-- hypotheses of `removal_without_redaction_invalid` / `change_without_redaction_invalid` -/
+example : parseRefs baseR.assertions = some refsBase ∧ refNote ∈ refsBase ∧
+    isRedacted [] baseR.label refNote.label refNote.inst = false ∧
+    findCA baseR refNote.label refNote.inst = none := by decide
+example : findCA (exBase true) refNote.label refNote.inst = some exNote ∧
+    ({ exNote with hash := "hX".toList } : CA).hash ≠ refNote.hu.hash := by decide
+
+/-- on (2) the recorded `assertion.missing` *is* dropped (ingredient scope): the hypothesis
+`hrec` of `ingredient_removal_never_valid` cannot be omitted — and that is C2PA's rule for
+failures an importer recorded, not a defect -/
+example : keep lA [⟨cMissing, some (uriB "org.note"), .failure⟩]
+    ⟨cMissing, some (uriB "org.note"), .failure, true⟩ = some false := by decide
+example : keep lA [] ⟨cMissing, some (uriB "org.note"), .failure, true⟩ = some true := by decide
 
 end C2pa.C20
